@@ -35,12 +35,13 @@ ASSUME = [
     "returned and that nobody disposed has not started",
 ]
 
-QUICK = dict(cap1=22, rnd1=3, n2=12, cap2=16, rnd2=2, bound=2, procs=8)
+QUICK = dict(cap1=20, rnd1=3, n2=10, cap2=14, rnd2=2, bound=2, procs=8)
 THOROUGH = dict(cap1=2500, rnd1=300, n2=500, cap2=250, rnd2=30, bound=3, procs=8)
 
 NEEDED_ACTIONS = ["NextOp", "SchedCall", "SchedInline", "SchedEnqueue", "SchedAssign", "SchedRet", "DispCall", "CancelPop", "CancelSet",
                   "DispMarshal", "DispAwait", "DispRet", "CancelDone", "PostDispose", "RunInterval", "Stage2Timer", "Stage2Assign",
-                  "LoopStart", "RunOnce", "Pop", "IterEnd", "Enter", "CbEnd", "LoopIdle", "LoopStop", "Tick", "Finished"]
+                  "LoopStart", "Poll", "RunOnce", "Pop", "IterEnd", "Enter", "CbEnd", "LoopIdle", "LoopAsleepWithWork", "LoopStop", "Tick",
+                  "Finished"]
 
 
 def n_items(sc):
@@ -56,9 +57,9 @@ def run(tier: str) -> int:
     try:
         # ---- TLC: scenario family (export) first, then the design checks concurrently with the exploration below
         q = tier == "quick"
-        scs, r1 = ac.export_scenarios(2, "FamExportQuick" if q else "FamExport")      # alone: the box is oversubscribed
+        scs, r1 = ac.export_scenarios(2, "FamExportQuick" if q else "FamExport", ownsets="OwnExport")   # alone: the box is oversubscribed
         designs = [("design + negative controls: all interleavings, the 1-item scenarios (Variant own) and the fault variants", True,
-                    tp.submit(ac.design_run, 2, "FamOneQuick" if q else "FamOne", ac.VARIANTS_ALL, ("F",), 1, True))]
+                    tp.submit(ac.design_run, 2, "FamOneQuick" if q else "FamOne", ac.VARIANTS_ALL, ("F",), 1, True, ownsets="OwnCaller"))]
         if tier == "quick":
             designs.append(("design: all interleavings, 2 items on the thread-safe scheduler, foreign-thread disposes", False,
                             tp.submit(ac.design_run, 2, "FamTwoQuick", ("own",), ("F",), 2, False)))
@@ -107,7 +108,8 @@ def run(tier: str) -> int:
                     raise tlc.TLCFailure(f"vacuous design run: actions never taken {never}")
                 ck.note("design_action_coverage", {a: res.coverage.get(a, 0) for a in NEEDED_ACTIONS})
                 ck.note("negative_controls", {"caller": "NoStartAfterDisposeReturned", "early": "NotEarly", "lose": "NoLostAction",
-                                              "inline": "OnLoopThread", "verdict": "each refuted by its invariant (postcondition ControlsRefuted)"})
+                                              "nowake": "NoLostAction", "inline": "OnLoopThread",
+                                              "verdict": "each refuted by its invariant (postcondition ControlsRefuted)"})
     finally:
         pool.terminate()
         tp.shutdown(wait=False, cancel_futures=True)
